@@ -601,9 +601,13 @@ pub fn gen_history(rng: &mut Rng, p: &GenParams, with_probes: bool) -> Vec<Op> {
                 }
             }
             _ => {
-                let k = tg.rng.below(8) as i64;
-                let sd = (tg.rng.next() % 1_000_000) as i64;
-                ops.push(Op::new("probe").i(k).i(sd));
+                if tg.rng.chance(1, 5) {
+                    ops.push(Op::new("reseed").i((tg.rng.next() >> 1) as i64 | 1));
+                } else {
+                    let k = tg.rng.below(8) as i64;
+                    let sd = (tg.rng.next() % 1_000_000) as i64;
+                    ops.push(Op::new("probe").i(k).i(sd));
+                }
             }
         }
         tg_next = tg.next_binder;
@@ -667,6 +671,12 @@ pub fn exec_sess_op<L: SimLang, N: Analysis<L>>(s: &mut Sess<L, N>, op: &Op, run
         "probe" => {
             if run.get("probes") != 0 {
                 run_probes(s, op.int(0), op.int(1) as u64);
+            }
+        }
+        "reseed" => {
+            // K1: hash maps created from now on use another iteration order
+            if run.get("hash_seed") != 0 {
+                crate::exec::seam::set_hash_seed(op.int(0) as u64);
             }
         }
         o => panic!("harness: unknown sess op {o}"),
